@@ -196,6 +196,23 @@ fn gen_offer(rng: &mut Rng) -> DescSpec {
             }
             _ => {}
         }
+        // codec names are case-insensitive (RFC 4855) and any codec may be offered on any dynamic payload type (Chrome: DTMF on
+        // 110 / 126, SIP phones: static codecs on 96..101): vary the spelling and the number of every codec that has an rtpmap
+        if matches!(kind, MediaKind::Audio | MediaKind::Video) {
+            let rtx_pts: Vec<u8> = s.rtx.iter().map(|r| r.0).collect();
+            for ci in 0..s.codecs.len() {
+                if !s.codecs[ci].rtpmap { continue; }
+                if rng.chance(1, 6) { s.codecs[ci].name = if rng.chance(1, 2) { s.codecs[ci].name.to_ascii_lowercase() } else { s.codecs[ci].name.to_ascii_uppercase() }; }
+                if rng.chance(1, 5) {
+                    let old = s.codecs[ci].pt;
+                    let taken: Vec<u8> = s.codecs.iter().map(|c| c.pt).chain(rtx_pts.iter().copied()).collect();
+                    let free: Vec<u8> = (96u8..=127).filter(|p| !taken.contains(p)).collect();
+                    let np = *rng.pick(&free);
+                    s.codecs[ci].pt = np;
+                    for r in s.rtx.iter_mut() { if r.1 == old { r.1 = np; } }
+                }
+            }
+        }
         if rng.chance(1, 3) { s.ssrc = Some(1000 + i as u32); }
         secs.push(s);
     }
@@ -213,6 +230,16 @@ fn gen_offer(rng: &mut Rng) -> DescSpec {
     } else if d.sections.len() > 1 && rng.chance(1, 10) {
         // sections with differing a=setup
         for s in &mut d.sections { s.setup = Some(*rng.pick(&["actpass", "active", "passive"])); }
+    }
+    // a=setup on a proper subset of the sections only (the role is derived from the FIRST section that carries one)
+    if d.session_setup.is_none() && d.sections.len() > 1 && rng.chance(1, 6) {
+        let keep = rng.below(d.sections.len() as u64) as usize;
+        for (i, s) in d.sections.iter_mut().enumerate() { if i != keep && rng.chance(2, 3) { s.setup = None; } }
+        if rng.chance(1, 2) { d.sections[0].setup = None; if keep == 0 { let k = d.sections.len() - 1; if d.sections[k].setup.is_none() { d.sections[k].setup = Some("active"); } } }
+    }
+    // both levels at once: a session-level a=setup AND media-level values on some sections (the media level wins)
+    if d.session_setup.is_some() && d.sections.len() > 1 && rng.chance(1, 3) {
+        for s in d.sections.iter_mut() { if rng.chance(1, 2) { s.setup = Some(*rng.pick(&["actpass", "active", "passive"])); } }
     }
     // a direction at session level, with some sections carrying none of their own (RFC 8866 §6.7)
     if rng.chance(1, 12) {
@@ -305,7 +332,11 @@ impl Verdict {
 pub struct Ctx<'a> { pub renegotiation: bool, pub cfg: &'a LocalCfg, pub first_offer: Option<&'a SessionDescription>, pub trx_kinds: Vec<MediaKind>,
     /// the generator's view of the offer: which sections carry NO direction attribute of their own (the parser folds an absent
     /// direction into `sendrecv`, so the parsed description cannot tell)
-    pub spec: &'a DescSpec }
+    pub spec: &'a DescSpec,
+    /// (kind, mid) of every transceiver BEFORE this offer was applied (None on a first negotiation)
+    pub trx_before: Option<&'a Vec<(MediaKind, Option<String>)>>,
+    /// (kind, mid) the transceivers carried before the FIRST remote offer (mids assigned by an earlier create_offer)
+    pub own_mids: &'a Vec<(MediaKind, Option<String>)> }
 
 fn local_audio(c: &LocalCfg) -> Vec<AudioCapability> { if c.caps_set && !c.audio.is_empty() { c.audio.clone() } else { vec![AudioCapability::default()] } }
 fn local_video(c: &LocalCfg) -> Vec<VideoCapability> { if c.caps_set && !c.video.is_empty() { c.video.clone() } else { vec![VideoCapability::default()] } }
@@ -366,7 +397,8 @@ pub fn valid_answer(offer: &SessionDescription, ans: &SessionDescription, cx: &C
             v.al = false;
             // LegacySip: EVERY mid is dropped; a mid that is wrong rather than dropped is something else
             let class = if legacy && a.mid.is_empty() { "legacy-sip" } else if a.mid.is_empty() && !offered_bundle && offer.media_sections.len() > 1 { "cleared-no-bundle-multi-section" }
-                else if o.mid.is_empty() && cx.cfg.offered_first { "own-mid-on-midless-section" } else { "other" };
+                else if o.mid.is_empty() && cx.cfg.offered_first && !offer.media_sections.iter().any(|m2| m2.mid == a.mid)
+                    && cx.own_mids.iter().any(|(k2, m)| *k2 == o.kind && m.as_deref() == Some(a.mid.as_str())) { "own-mid-on-midless-section" } else { "other" };
             v.fails.push((format!("ans:mids:{class}"), format!("section {i}: offer mid {:?}, answer mid {:?}", o.mid, a.mid)));
         }
         // ---- the answer accepts the section: non-zero port, a connection address (RFC 3264 §6: port 0 = rejected)
@@ -432,7 +464,9 @@ pub fn valid_answer(offer: &SessionDescription, ans: &SessionDescription, cx: &C
             // known root cause: on a re-offer without mids the three matching loops (handle_reinvite, set_remote_description,
             // create_answer) pick different transceivers when the first negotiation left a transceiver of the kind unbound (mid None):
             // set_remote_description binds THAT one first on the re-offer, create_answer the first of the kind
-            let spare = cx.first_offer.is_some_and(|f| cx.trx_kinds.iter().filter(|x| **x == o.kind).count() > f.media_sections.iter().filter(|m| m.kind == o.kind).count());
+            // … i.e. a transceiver of the kind existed BEFORE this re-offer and had no mid (a regression that makes set_remote_description
+            // create or bind another transceiver does not satisfy this by its own side effect)
+            let spare = cx.trx_before.is_some_and(|tb| tb.iter().any(|(k2, m)| *k2 == o.kind && m.is_none()));
             let cause = if cx.renegotiation && o.mid.is_empty() && spare { "midless-reoffer-rebinds-spare-transceiver" } else { "other" };
             v.fails.push((format!("ans:direction:{neg}:{cause}"), format!("section {i}: offered {}, answered {}", dir_s(o.direction), dir_s(a.direction))));
         }
@@ -528,7 +562,11 @@ fn round_trip_desc(run: &mut Run, case: &str, origin: &str, d: &SessionDescripti
                 run.count("rt_not_exact_attribute_order");
             } else if d2 == *d { run.count("rt_exact"); }
             if d2 != norm(d) {
-                let what = if d2.session != d.session { if d.session.attributes.iter().any(|a| a.key.contains(':')) { "session:colon-in-unknown-line-prefix" } else { "session" } } else if d2.media_sections.len() != d.media_sections.len() { "section-count" }
+                let what = if d2.session != d.session {
+                    // known shape: NOTHING but the attributes with ':' in their key differ, each re-read as key = part before the first ':'
+                    let mut exp = d.session.clone();
+                    for a in exp.attributes.iter_mut() { if let Some((k, rest)) = a.key.clone().split_once(':') { a.value = Some(match &a.value { Some(v) => format!("{rest}:{v}"), None => rest.to_string() }); a.key = k.to_string(); } }
+                    if exp != d.session && d2.session == exp { "session:colon-in-unknown-line-prefix" } else { "session" } } else if d2.media_sections.len() != d.media_sections.len() { "section-count" }
                     else {
                         let n = norm(d);
                         let i = (0..n.media_sections.len()).find(|i| n.media_sections[*i] != d2.media_sections[*i]).unwrap_or(0);
@@ -572,7 +610,8 @@ fn err_class(e: &rustrtc::RtcError) -> String {
 }
 
 /// answer to the current remote offer: snapshot → real create_answer → `ans`, `valid`, `rt`, oracles
-async fn answer_step(run: &mut Run, case: &str, c: &LocalCfg, pc: &PeerConnection, offer: &SessionDescription, spec: &DescSpec, reneg: bool, first_offer: Option<&SessionDescription>) -> Option<SessionDescription> {
+async fn answer_step(run: &mut Run, case: &str, c: &LocalCfg, pc: &PeerConnection, offer: &SessionDescription, spec: &DescSpec, reneg: bool, first_offer: Option<&SessionDescription>,
+    trx_before: Option<&Vec<(MediaKind, Option<String>)>>, own_mids: &Vec<(MediaKind, Option<String>)>) -> Option<SessionDescription> {
     let snap = pc.verif_snapshot();
     let remote = snap.remote_description.as_ref().map(desc_s).unwrap_or("-".into());
     let input = format!("{case} {} {} {} {} {}", cfg_s(c), trxs_s(&snap), snap.next_mid, role_s(snap.dtls_role), remote);
@@ -588,7 +627,7 @@ async fn answer_step(run: &mut Run, case: &str, c: &LocalCfg, pc: &PeerConnectio
             run.case("ans", &input, &a_s, true);
             run.count(if reneg { "answers_renegotiation" } else { "answers_first" });
             run.count(&format!("answer_sections_{}", ans.media_sections.len()));
-            let cx = Ctx { renegotiation: reneg, cfg: c, first_offer, trx_kinds: snap.transceivers.iter().map(|t| t.kind).collect(), spec };
+            let cx = Ctx { renegotiation: reneg, cfg: c, first_offer, trx_kinds: snap.transceivers.iter().map(|t| t.kind).collect(), spec, trx_before, own_mids };
             let v = valid_answer(offer, &ans, &cx);
             run.case("valid", &format!("{case} {} {}", desc_s(offer), a_s), &v.text(), !v.all());
             if v.all() { run.count("answers_valid"); } else { run.count("answers_invalid"); }
@@ -646,6 +685,8 @@ pub async fn exec_case(run: &mut Run, case: &str, ac: &AnsCase) {
     }
     let mut reneg = false;
     let mut first: Option<SessionDescription> = None;
+    let own_mids: Vec<(MediaKind, Option<String>)> = pc.verif_snapshot().transceivers.iter().map(|t| (t.kind, t.mid.clone())).collect();
+    let mut trx_before: Option<Vec<(MediaKind, Option<String>)>> = None;
     for spec in ac.offer1.iter().chain(std::iter::once(&ac.offer)) {
         let text = render(&c.mode, spec);
         round_trip_text(run, case, "offer-text", &text);
@@ -658,13 +699,19 @@ pub async fn exec_case(run: &mut Run, case: &str, ac: &AnsCase) {
             break;
         }
         run.count(&format!("offer_sections_{}", offer.media_sections.len()));
-        let Some(ans) = answer_step(run, case, c, &pc, &offer, spec, reneg, first.as_ref()).await else { break };
+        let Some(ans) = answer_step(run, case, c, &pc, &offer, spec, reneg, first.as_ref(), trx_before.as_ref(), &own_mids).await else { break };
         if let Err(e) = pc.set_local_description(ans.clone()) {
             run.count("answer_not_accepted_locally");
             run.fail("accept:own-answer-rejected", case, &format!("set_local_description rejected the answer create_answer had just produced: {e}"));
             break;
         }
         sender_pt_oracle(run, case, &pc, &offer, &ans);
+        // the description the application actually sends: the stored local description once gathering has completed
+        if c.mode == TransportMode::WebRtc && !reneg {
+            let _ = tokio::time::timeout(std::time::Duration::from_millis(300), pc.wait_for_gathering_complete()).await;
+            if let Some(ld) = pc.local_description() { run.count("stored_local_descriptions"); round_trip_desc(run, case, "produced-stored-local", &ld); }
+        }
+        trx_before = Some(pc.verif_snapshot().transceivers.iter().map(|t| (t.kind, t.mid.clone())).collect());
         if first.is_none() { first = Some(offer.clone()); }
         reneg = true;
     }
@@ -864,7 +911,12 @@ pub fn run(args: &Args) {
         let lines: Vec<&str> = base.split("\r\n").filter(|l| !l.is_empty()).collect();
         let mut ls: Vec<String> = lines.iter().map(|s| s.to_string()).collect();
         let nmut = if rng.chance(1, 3) { 2 } else { 1 }; // two faults in one text: which error is reported first
-        for _ in 0..nmut { match rng.below(9) {
+        for _ in 0..nmut { match rng.below(11) {
+            9 => { for l in ls.iter_mut() { if l.starts_with("s=") { *l = (*rng.pick(&["s= ", "s=", "s=a b", "s=-  "])).to_string(); } } }
+            10 => { // c= at session level AND (equal or different) at media level — ordinary SIP
+                let sc = *rng.pick(&["c=IN IP4 0.0.0.0", "c=IN IP4 127.0.0.1", "c=IN IP6 ::1"]);
+                if let Some(k) = ls.iter().position(|l| l.starts_with("t=")) { ls.insert(k, sc.to_string()); }
+            }
             0 => { let k = rng.below(ls.len() as u64) as usize; ls.remove(k); }
             1 => { let k = rng.below(ls.len() as u64) as usize; ls[k] = ls[k].replace('=', " "); }
             2 => { let k = rng.below(ls.len() as u64) as usize; ls.insert(k, (*rng.pick(&["b=AS:128", "i=title", "a=foo", "a=foo:", "a=:x", "k=clear:abc", "b:x=y", "a:b=c", "i:=", "a=mid", "a=sendonly", "x", "=", "a=", "z=0 0"])).to_string()); }
